@@ -1,6 +1,6 @@
 (* C15 - Variable byte integers are encoded minimally and decoded exactly.
    Statements only; proofs live in Proofs/. *)
-From MQ Require Import Model.Stream Proofs.BytesP Proofs.VbP Proofs.StreamP Model.WireIR Proofs.WireIRP Proofs.FillP gen.GenWire gen.SyncWire.
+From MQ Require Import Model.Stream Proofs.BytesP Proofs.VbP Proofs.StreamP Model.WireIR Proofs.WireIRP Proofs.FillP gen.GenWire gen.SyncWire Model.WireDecIR Proofs.WireDecIRP gen.GenWireDec gen.SyncWireDec.
 
 (* Every value 0 .. 268 435 455 is written in the unique minimal
    one-to-four-byte form: the output is well formed (seven bits per
@@ -99,3 +99,14 @@ Proof.
   split; [exact sync_wire_progs|]. intros n id buf i. unfold prog_vbint_fill. rewrite run_vb_fill. exact (fill_vb_ok n buf i).
 Qed.
 Print Assumptions C15_encoder_is_the_source.
+
+(* and dec_vb, the in-memory decoder of the theorems above, is the loop of
+   vbint.UnmarshalBinary as it stands in the source: its regenerated statement
+   list, run on any byte string, gives dec_vb's value, dec_vb's error class
+   ("missing data" for an empty input and for one that ends on a continuation
+   byte, "size exceeded" at the fifth byte), and never panics. *)
+Theorem C15_decoder_is_the_source :
+  g_wire_dec_progs = wire_dec_progs /\
+  forall old d, run_wdec dprog_vbint old d = lift WVn (dec_vb d).
+Proof. split; [exact sync_wire_dec_progs|exact run_vb_dec]. Qed.
+Print Assumptions C15_decoder_is_the_source.
